@@ -26,12 +26,12 @@ theorem c20_ring_blocked_by_suspended_reservation (hn : 0 < n) (hr : ReachableX 
   exact ⟨h2, h3, h1, hr.run as hok⟩
 
 /-- with every other thread `idle` (in particular no reservation outstanding) each call of `t` returns within 5 own steps
-    (`send`: 4, `recv`: 4 or 5, `len`: 1, `reserve`: 2 or 3) -/
+    (`send`: 4, `recv`: 4 or 5, `len`: 2 — its two loads, `reserve`: 2 or 3) -/
 theorem c20_solo_progress (hn : 0 < n) (hr : ReachableX n s) (t : Nat)
     (hothers : ∀ u, u ≠ t → s.thr u = .idle) (ht : s.thr t = .idle) :
     (∀ v, ∃ r, (run s [.send t v, .step t, .step t, .step t, .step t, .step t]).thr t = .done r) ∧
     (∃ r, (run s [.recv t, .step t, .step t, .step t, .step t, .step t]).thr t = .done r) ∧
-    (run s [.len t, .step t]).thr t = .done (.len (abs s).length) ∧
+    (s.N < 4294967296 → (run s [.len t, .step t, .step t]).thr t = .done (.len (abs s).length)) ∧
     ((abs s).length < s.N →
         (run s [.reserve t, .step t, .step t]).thr t = .rRet s.tail (.reserved (s.tail % s.N) (abs s).length)) ∧
     ((abs s).length = s.N → (run s [.reserve t, .step t, .step t, .step t]).thr t = .done .full) := by
@@ -56,7 +56,7 @@ theorem c20_solo_progress (hn : 0 < n) (hr : ReachableX n s) (t : Nat)
       show (step (run s (recvSolo t)) t).thr t = _
       rw [step_noop _ t (Or.inr (Or.inl ⟨_, h4⟩))]; exact h4
     · exact ⟨_, (solo_recv_empty' s t ht hq.2 (by omega)).1⟩
-  · rw [hlen]; exact solo_len s t ht
+  · intro hN; rw [hlen]; exact solo_len s t ht hHT (by omega)
   · intro hroom; rw [hlen]; exact solo_reserve_ok s t ht hq.1 (by omega)
   · intro hfull; exact (solo_reserve_full s t ht hq.1 (by omega)).1
 
